@@ -218,8 +218,16 @@ Definition served_until (c : sim_case) : Z :=
 Definition oracle_c06 (c : sim_case) : list Z :=
   if honoured (sc_devs c) [] (served_until c) (sc_trace c) then [] else [65].
 
+(* 61 counts the updates stamped with the initial time: it speaks about the initial tick only when that is the only
+   master tick at the initial time (a device may ask to be re-evaluated at once, an interrupt may be pending from
+   before the start: a second tick at the initial time updates devices again, rightly) *)
+Definition initial_ok_case (c : sim_case) : list Z :=
+  let r := initial_ok (devices_of (sc_cfg c)) (sc_initial c) (sc_trace c) in
+  if Nat.eqb (length (filter (fun mt : Z * Z => Z.eqb (fst mt) (sc_initial c)) (sc_mticks c))) 1 then r
+  else filter (fun x => negb (Z.eqb x 61)) r.
+
 Definition oracle_sim (c : sim_case) : list Z :=
-  initial_ok (devices_of (sc_cfg c)) (sc_initial c) (sc_trace c) ++
+  initial_ok_case c ++
   (if latest_ok (flat_conns (sc_cfg c)) (sc_devs c) [] [] (sc_trace c) then [] else [81]) ++
   (if honoured (sc_devs c) [] (served_until c) (sc_trace c) then [] else [65]) ++
   (if not_invented c then [] else [66]) ++
@@ -356,6 +364,12 @@ Definition check_sim_c04 (c : sim_case) : list Z := check_sim c ++ oracle_c04 c.
    81 some update was handed something else than the latest value of a resolved source *)
 Definition oracle_c03 (c : sim_case) : list Z :=
   if latest_ok (flat_conns (sc_cfg c)) (sc_devs c) [] [] (sc_trace c) then [] else [81].
+
+(* ... and with the interrupt raised at any point until the last device of the initial tick has been updated: besides 63,
+   every update of the run is handed the latest values of its resolved sources (81) -- what the initial tick delivered
+   is not lost when the interrupt's tick follows at once *)
+Definition check_initial_early_latest (c : early_case) : list Z :=
+  check_initial_early c ++ oracle_c03 (fst c).
 
 (* ---------- C08 on whole simulations: one simulation on the synchronous in-memory bus (the
    reference) and on a conforming bus that delays and reorders deliveries (per-topic FIFO kept,
